@@ -38,14 +38,23 @@ TRUSTED = [
 
 CORE = [("if", 1, 3), ("quote", 2, 1)]          # name, mid, arity: python-implemented, return compiler results
 USER = ["m0", "m1", "m2", "m3", "m4", "m5"]
-SYMS = ["a", "b", "foo", "x", "y", "None"]
+SYMS = ["a", "b", "bar", "x", "y", "None"]
 BASE = 1000
 
 
 # ------------------------------------------------------------------ templates
 
-def gen_tmpl(rng, i, arity, depth=0, head_ok=True):
-    """a template for macro number i (may only call macros with a larger number)"""
+ORDER = USER + ["x.y", "foo", "quote", "if"]     # a template of rank i only produces macro heads of rank > i
+
+
+def head_for(n):
+    return ("expr", [("sym", "."), ("sym", "x"), ("sym", "y")]) if n == "x.y" else ("sym", n)
+
+
+def gen_tmpl(rng, i, arity, depth=0):
+    """a template for the macro of rank i in ORDER (termination: heads only name macros of larger rank)"""
+    later = ORDER[i + 1:]
+
     def leaf():
         r = rng.random()
         if arity and r < 0.45:
@@ -54,27 +63,25 @@ def gen_tmpl(rng, i, arity, depth=0, head_ok=True):
             return ("int", rng.randrange(0, 50))
         if r < 0.7:
             return ("str", rng.choice(["s", "hello", ""]))
-        return ("sym", rng.choice(SYMS + USER[i + 1:] * 2 if USER[i + 1:] else SYMS))
+        return ("sym", rng.choice(SYMS + [n for n in later if n != "x.y"] * 2))
     if depth >= 2 or rng.random() < 0.15:
         return leaf()
     if rng.random() < 0.2:
         return ("list", [gen_tmpl(rng, i, arity, depth + 1) for _ in range(rng.randrange(0, 3))])
     r = rng.random()
-    later = USER[i + 1:]
-    if later and r < 0.55:
-        head = ("sym", rng.choice(later))
-    elif r < 0.65:
-        return ("expr", [("sym", "if"), ("int", 1), ("int", 2), ("int", 3)])
-    elif r < 0.72:
-        return ("expr", [("sym", "quote"), gen_tmpl(rng, i, arity, depth + 1)])
-    elif r < 0.8:
-        head = ("expr", [("sym", "."), ("sym", "x"), ("sym", "y")])
-    elif r < 0.85:
-        head = ("expr", [("sym", "foo"), ("int", 1)])
-    elif r < 0.88:
+    if later and r < 0.6:
+        n = rng.choice(later)
+        if n == "if":
+            return ("expr", [("sym", "if"), ("int", 1), ("int", 2), ("int", 3)])
+        if n == "quote":
+            return ("expr", [("sym", "quote"), gen_tmpl(rng, i, arity, depth + 1)])
+        head = head_for(n)
+    elif r < 0.7:
+        head = ("expr", [("sym", "bar"), ("int", 1)])
+    elif r < 0.75:
         return ("expr", [])
     else:
-        head = ("sym", rng.choice(["foo", "a", "b"]))
+        head = ("sym", rng.choice(["bar", "a", "b"]))
     return ("expr", [head] + [gen_tmpl(rng, i, arity, depth + 1) for _ in range(rng.randrange(0, 3))])
 
 
@@ -119,11 +126,11 @@ class World:
                 self.defs[10 + i] = self.body(rng, i)
         if rng.random() < 0.25:
             self.modns.append(("if", 30))
-            self.defs[30] = (3, ("tmpl", ("expr", [("sym", "foo"), ("arg", 0), ("arg", 2)])))
+            self.defs[30] = (3, ("tmpl", ("expr", [("sym", "bar"), ("arg", 0), ("arg", 2)])))
         if rng.random() < 0.5:
             k = 40
             for n in rng.sample(USER + ["x.y", "foo", "quote"], rng.randrange(1, 4)):
-                i = USER.index(n) if n in USER else len(USER) - 2
+                i = ORDER.index(n)
                 self.extra.append((n, k))
                 self.defs[k] = self.body(rng, i)
                 k += 1
@@ -408,17 +415,33 @@ def expected_step(hy, world, o):
         return ("raise",)
 
 
+class _Timeout(BaseException):
+    pass
+
+
+def _alarm(signum, frame):
+    raise _Timeout()
+
+
 def call(hy, f, o, world):
+    import signal
+    old = signal.signal(signal.SIGALRM, _alarm)
+    signal.setitimer(signal.ITIMER_REAL, 10)
     try:
         with warnings.catch_warnings():
             warnings.simplefilter("ignore")
             return ("ok", f(o, module=world.module, macros=world.extra_dict))
+    except _Timeout:
+        return ("timeout", "expansion did not finish in 10 s (outside the property; generator guard)")
     except hy.errors.HyLanguageError as e:
         return ("raise", type(e).__name__)
     except RecursionError:
         return ("raise", "RecursionError")
     except Exception as e:
         return ("error", type(e).__name__ + ": " + str(e)[:100])
+    finally:
+        signal.setitimer(signal.ITIMER_REAL, 0)
+        signal.signal(signal.SIGALRM, old)
 
 
 def m_atom_gained_position(rec, params):
@@ -511,7 +534,9 @@ def run(chk):
             before = snapshot(hy, o)
             r = call(hy, f, o, world)
             after = snapshot(hy, o)
-            if r[0] == "ok":
+            if r[0] == "timeout":
+                enc = [4]
+            elif r[0] == "ok":
                 enc = [1] + encode_real(hy, r[1], it2) + [9, len(at2)] + [enc_o(it2.known(a)) for a, _ in at2]
             elif r[0] == "raise":
                 enc = [3]
@@ -607,6 +632,9 @@ def judge_oracle(chk, hy, world, d, regime, bits, obs):
     how = ("build the input with props/c36.py:make_input(hy, %r, %r, %r) in a module holding the world's macros; "
            "hy.macroexpand_1 / hy.macroexpand(model, module=m, macros=<macros_arg>)" % (d, regime, bits))
     chk.count("positions:" + regime)
+    if any(r[0] == "timeout" for _, _, r, _, _, _ in obs):
+        chk.count("skipped:non-terminating-expansion")
+        return
     for nm, o, r, before, after, enc in obs:
         fresh = make_input(hy, d, regime, bits)
         res = resolve(hy, world, fresh)
